@@ -26,7 +26,11 @@ def kf_d18(cfg, prefix, v):
     is dropped while it is the first bar are kept by subtracting them from the lines to clear,
     but the lines counted from the bottom then cover the dropped bar instead of the filler, so
     its final rendering is erased by the next draw (no println/clear/suspend/remove needed)."""
-    return v["rule"] == "ScreenOK" and _ever_bottom(cfg, prefix) and any(o.get("op") == "drop" for o in prefix)
+    if v["rule"] != "ScreenOK":
+        return False
+    # a bar is dropped while bottom alignment is (or has been) in force
+    first_bottom = 0 if (cfg.get("mp") or {}).get("align") == "bottom" else next((i for i, o in enumerate(prefix) if o.get("op") == "mp_set_alignment" and o.get("a") == "bottom"), None)
+    return first_bottom is not None and any(o.get("op") == "drop" for o in prefix[first_bottom:])
 
 
 def _early_wrap_line(line, w, off):
